@@ -4,6 +4,7 @@ package pipe
 import (
 	"sync"
 	"sync/atomic"
+	"time"
 )
 
 type acc struct {
@@ -85,3 +86,20 @@ func tryTake(c chan int) (int, bool) {
 }
 
 var _ = tryTake
+
+// WaitWithProgress mixes a modelled channel with a ticker and a timeout (the time package is replaced by vtime).
+func WaitWithProgress(done chan struct{}) (ticks int, timedOut bool) {
+	tk := time.NewTicker(50 * time.Millisecond)
+	defer tk.Stop()
+	deadline := time.After(10 * time.Minute)
+	for {
+		select {
+		case <-done:
+			return ticks, false
+		case <-tk.C:
+			ticks++
+		case <-deadline:
+			return ticks, true
+		}
+	}
+}
